@@ -154,7 +154,7 @@ class CallMixin:
         if name in LIBC_PASS:
             self.helpers.add(LIBC_PASS[name])
             return f'{LIBC_PASS[name]}({", ".join(self.ex(a) for a in args)})'
-        if name in ('fill', 'copy', 'equal', 'fill_n', 'copy_n', 'reverse', 'all_of', 'any_of', 'find', 'count'):
+        if name in ('fill', 'copy', 'equal', 'fill_n', 'copy_n', 'reverse', 'all_of', 'any_of', 'find', 'count', 'remove_if', 'find_if'):
             return self.std_algorithm(name, n, args)
         if name in ('move', 'forward') and len(args) == 1:
             return self.ex(args[0])
@@ -238,6 +238,33 @@ class CallMixin:
             self.pre.append(f'for ({self.ctype(a0t)} {it} = {first}; {it} != {last}; ++{it}) '
                             f'{{ if ({"!" if name == "all_of" else ""}{lam["cname"]}(*{it})) {{ {r} = {1 - int(want)}; break; }} }}')
             self.cur['loops'] += 1
+            return r
+        if name in ('remove_if', 'find_if') and len(args) == 3 and self.is_lambda_arg(args[2]):
+            # std::remove_if / std::find_if with a lambda: the library loop, written out (stable compaction / first match)
+            lamnode = self.strip_to_lambda(args[2])
+            try:
+                lam = self.lambda_fn(lamnode)
+            except LoweringError:
+                insts = self.lambda_instantiations(lamnode)
+                if len(insts) != 1:
+                    raise
+                lam = insts[0]
+            if self.cond_depth:
+                raise LoweringError(f'std::{name} in a conditional operand')
+            first = self.hoist(a0t, self.ex(args[0]))
+            last = self.hoist(a0t, self.ex(args[1]))
+            pt = lam['ptypes'][0]
+            it = self.tmp('__it')
+            call = f'{lam["cname"]}({", ".join(lam["captures"] + [it if pt.is_ref() else "*" + it])})'
+            self.cur['loops'] += 1
+            if name == 'remove_if':
+                w = self.tmp('__w')
+                self.pre.append(f'{self.ctype(a0t)} {w} = {first};')
+                self.pre.append(f'for ({self.ctype(a0t)} {it} = {first}; {it} != {last}; ++{it}) {{ if (!{call}) {{ *{w} = *{it}; ++{w}; }} }}')
+                return w
+            r = self.tmp('__f')
+            self.pre.append(f'{self.ctype(a0t)} {r} = {last};')
+            self.pre.append(f'for ({self.ctype(a0t)} {it} = {first}; {it} != {last}; ++{it}) {{ if ({call}) {{ {r} = {it}; break; }} }}')
             return r
         raise LoweringError(f'std::{name} form not modelled in {self.cur["name"]}')
 
@@ -475,6 +502,9 @@ class CallMixin:
         if fam == 'time_point':
             if m == 'time_since_epoch':
                 return obj
+        if fam == 'rec' and getattr(bt, 'name', '') == 'std::filesystem::path':
+            if m == 'clear':
+                return '((void)0)'      # opaque path: nothing observable
         raise LoweringError(f'no model for {fam}::{m}/{len(args)} in {self.cur["name"]}')
 
     def map_index(self, t, o, keynode):
